@@ -24,12 +24,13 @@ NoEntry == [id |-> "none"]
 PacValues == {"none"}      \* extended to {"none", "valid", "badServerSig", "noClientInfo", "malformed"} once C19's PAC minting exists
 \* ---- abstract request fields and their nominal values ------------------------------------------------------------
 Domain == [ sealedBy   |-> {"sel", "oRealm", "oKvno", "oPrinc", "oEtype", "prefix", "none"},  \* whose key sealed the ticket
-            kvnoLabel  |-> {"k2", "k0", "k3"},
+            kvnoLabel  |-> {"k2", "k0", "k3", "k258"},               \* k258 = 2 + 256: equal to the entry only modulo 256
             realmLabel |-> {"R", "R2"},
             snameLabel |-> {"P", "Q", "Z", "empty"},          \* Z: not in the keytab; empty: no name components
             etLabel    |-> {"E", "E2"},
             tktCipher  |-> {"intact", "flippedBody", "flippedMac", "truncated"},
             tktUsage   |-> {"right", "other"},
+            trailer    |-> {"none", "clearCopy"},   \* a cleartext copy of the EncTicketPart appended to the Ticket SEQUENCE: unauthenticated, must be ignored
             start      |-> {"absent", "past", "futureInside", "futureOutside"},
             end        |-> {"future", "pastInside", "pastOutside"},
             invalid    |-> {"no", "yes"},
@@ -43,7 +44,7 @@ Domain == [ sealedBy   |-> {"sel", "oRealm", "oKvno", "oPrinc", "oEtype", "prefi
             pac        |-> PacValues ]
 Fields == DOMAIN Domain
 Nominal == [ sealedBy |-> "sel", kvnoLabel |-> "k2", realmLabel |-> "R", snameLabel |-> "P", etLabel |-> "E",
-             tktCipher |-> "intact", tktUsage |-> "right", start |-> "past", end |-> "future", invalid |-> "no",
+             tktCipher |-> "intact", tktUsage |-> "right", trailer |-> "none", start |-> "past", end |-> "future", invalid |-> "no",
              caddr |-> "none", authKey |-> "session", authUsage |-> "right", authCipher |-> "intact",
              cname |-> "match", crealm |-> "match", ctime |-> "now", pac |-> "none" ]
 \* settings
@@ -53,7 +54,7 @@ SettingsSpace == [ skew : {"default", "s60", "s10"}, requireHostAddr : BOOLEAN, 
 \* ---- the decision procedure, condition by condition ----------------------------------------------------------------
 \* the principal the key is looked up for: the configured override, else the ticket's sname
 LookupPrinc(r, s) == IF s.override = "none" THEN r.snameLabel ELSE s.override
-KvnoOf == [k2 |-> 2, k0 |-> 0, k3 |-> 3]
+KvnoOf == [k2 |-> 2, k0 |-> 0, k3 |-> 3, k258 |-> 258]
 \* Keytab look-up (see C14): equal principal, realm, etype, and kvno (any kvno if 0); the newest such entry
 Candidates(r, s) == { e \in KT : /\ e.princ = LookupPrinc(r, s) /\ e.realm = r.realmLabel /\ e.et = r.etLabel
                                  /\ (r.kvnoLabel = "k0" \/ e.kvno = KvnoOf[r.kvnoLabel]) }
